@@ -31,11 +31,20 @@ class Prop(common.PropertyCheck):
             for j in range(rng.randrange(2, 4)):
                 iid = 'FC001' if (ninst == 1 or rng.random() < 0.6) else 'FC002'
                 rows.append({'iid': iid, 'units': [rng.choice(UNITS) for _ in range(3)], 'gf': rng.choice([0.85, 0.3, 1.0, 0.65]),
-                             'nonneg': rng.choice([True, False, 'zero']), 'scatter_out': rng.random() < 0.5})
-            dt = rng.choice(['I', 'I', 'F'])
+                             'nonneg': rng.choice([True, False, 'zero']), 'scatter_out': rng.random() < 0.5,
+                             'time_order': rng.choice(['sorted', 'wrap', 'random'])})
+            dt = rng.choice(['I', 'I', 'F', 'D'])
+            if i % 3 == 0:
+                # integer file whose time channel is a wrapping counter (first/last events are those of the event list, not of the clock)
+                dt = 'I'
+                rows[0].update({'iid': 'FC001', 'time_order': rng.choice(['wrap', 'random'])})
+            elif i % 3 == 1:
+                # double-precision file with events outside the declared range (no saturation gate for floating-point data)
+                dt = 'D'
+                rows[0].update({'nonneg': False, 'scatter_out': True})
             if i % 3 == 2:
                 # two float rows reporting the same channel in the same units, one with and one without negative events
-                dt = 'F'
+                dt = rng.choice(['F', 'D'])
                 rows[0].update({'iid': 'FC001', 'nonneg': True}); rows[1].update({'iid': 'FC001', 'nonneg': False})
                 rows[0]['units'][0] = rows[1]['units'][0] = rng.choice(['a.u.', 'RFI'])
                 if len(rows) < 3:
@@ -69,13 +78,13 @@ class Prop(common.PropertyCheck):
             iid = r['iid']
             fl = ex.inst[iid]['fl']
             fn = 's%d.fcs' % j
-            ex.write_fcs(fn, iid, n=700, voltage=450, seed=case['seed'] % 1000 + 10 + j, nonneg=r['nonneg'], scatter_out=r.get('scatter_out', False))
+            ex.write_fcs(fn, iid, n=700, voltage=450, seed=case['seed'] % 1000 + 10 + j, nonneg=r['nonneg'], scatter_out=r.get('scatter_out', False), time_order=r.get('time_order', 'sorted'))
             units = {}
             for c, u in zip(fl, r['units']):
                 cal = ('FL1', 'FL3') if iid == 'FC001' else ('GFP-A',)
                 if u is not None and u.strip().lower() == 'mef' and c not in cal:
                     u = 'RFI'
-                if u is not None and u.strip().lower() == 'mef' and case['datatype'] == 'F':
+                if u is not None and u.strip().lower() == 'mef' and case['datatype'] != 'I':
                     u = 'a.u.'        # float files have linear amplifiers; the bead files here are calibrated on log-amplified channels
                 units[c] = u
             srow.append(excelgen.sample_row('S%d' % j, iid, fn, {c: u for c, u in units.items() if u is not None},
@@ -212,4 +221,4 @@ class Prop(common.PropertyCheck):
         return None
 
     def nontrivial_key(self, case, impl):
-        return (case['datatype'], case['ninst'], str(case['scatter_gain']), tuple((r['iid'], tuple(map(str, r['units'])), r['gf'], str(r['nonneg']), r.get('scatter_out')) for r in case['rows']))
+        return (case['datatype'], case['ninst'], str(case['scatter_gain']), tuple((r['iid'], tuple(map(str, r['units'])), r['gf'], str(r['nonneg']), r.get('scatter_out'), r.get('time_order')) for r in case['rows']))
